@@ -6,6 +6,21 @@ import os
 ROOT = os.path.dirname(os.path.dirname(os.path.abspath(__file__)))
 
 CLAIMED = {
+    "C06": dict(
+        category="model_checking",
+        technique="TLA+ reference stack machine vs operational lexer/tree/process_nodes semantics (TLC, every file up "
+                  "to a bound) + every model state replayed into the compiler (selection, positions, E002, no leak "
+                  "between files) + simulate-mode long files",
+        text="Preproc.tla gives the property as a line-by-line stack machine (one TLA+ action per line form, "
+             "expressions by a declarative left fold) and the implementation's structure (lexer modes, Conditional tree, "
+             "LALRPOP expression grammar, process_nodes); TLC checks them equal on every file <= 4 lines over 14 forms "
+             "x 4 -D sets, every well-formed prefix <= 6 lines, every expression token sequence <= 4 x 8 valuations "
+             "(thorough: 5 lines / 8 lines / 6 tokens), and each state is compiled in one of three layouts with a "
+             "second file, comparing surviving probes and their (row, col), warning positions, E002 and cross-file "
+             "isolation. Random files to 40 lines, nesting <= 5, come from TLC's simulator.",
+        note="The count of E002 diagnostics is not compared. Block comments containing '#' at line start are outside "
+             "the modelled alphabet.",
+        design_ref="5 (C06), 4 (Preproc), Appendix E"),
     "C10": dict(
         category="model_checking",
         technique="TLA+ wire-format specification on base-256 digit sequences (TLC: round trip, shortest width, range "
